@@ -6,6 +6,7 @@ stores the previous value in the context's reset token, `exit` restores it.
 import AsphaltModel.Context
 import AsphaltProofs.Lemmas.Assoc
 import AsphaltProofs.Lemmas.Kernel2
+import AsphaltProofs.Lemmas.Teardown
 
 namespace Asphalt
 open K2
@@ -65,7 +66,7 @@ theorem C12_token_stable (w : World) (op : Op) (c : CtxId) (x : Ctx) (hx : w.ctx
   · obtain ⟨t, be, rfl, hs⟩ := hex
     obtain ⟨ch, hch⟩ := step_exit_ctx w t c be x hx hs
     rw [hch]
-    simp only [Option.map_some, (exitedCtx_token c be x).1]
+    simp only [Option.map_some, (exitedCtx_token c (w.curOf t) be x).1]
   · obtain ⟨y, hy, _, _, htok⟩ := step_ctx_other w op c x hx
       (fun t e => absurd e (hop t)) (fun t be e hs => hex ⟨t, be, e, hs⟩)
     rw [hy, Option.map_some, htok]
@@ -153,6 +154,15 @@ theorem C12_parent_default (w : World) (t : TaskId) (c : CtxId) (hfresh : w.ctx?
 theorem C12_inherit (w : World) (t t' : TaskId) :
     (step w (.spawn t t')).1.curOf t' = w.curOf t := by
   simp [step]
+
+/-- Inside a teardown callback `current_context()` is whatever is current for the task that is leaving the block — the context being torn down itself in disciplined use — and the callback's body cannot change it. -/
+theorem C12_current_in_teardown (cid : CtxId) (cur : Option CtxId) (x : Ctx) :
+    runBodyOp cid cur x .current = (x, [.cur cur]) := rfl
+
+theorem C12_current_in_teardown_disciplined (w : World) (t : TaskId) (c : CtxId) (x : Ctx) (hx : w.ctx? c = some x)
+    (hs : x.state = .opened) (hcur : w.curOf t = some c) (be : BlockEnd) :
+    (step w (.exit t c be)).2 = (runTeardown c (some c) be (effStack be x.tds) { x with state := .closing, tds := [] }).2.1 ++ [.closed, exitOutcome be x.parent.isNone x.children (runTeardown c (some c) be (effStack be x.tds) { x with state := .closing, tds := [] }).2.2] := by
+  rw [step_exit w t c be x hx hs, hcur]
 
 /-- Non-vacuity: two tasks alternating enter/exit on their own stacks. -/
 example :
